@@ -197,6 +197,40 @@ Definition handover (s : cstate F) (tls : bytes) : option (cstate F * bytes) :=
   end.
 End Handover.
 
+(* connection.go NewServerConnection builds the read buffer of a handed-over connection from the transferred bytes.
+   `has_room` (Gen/TransferTokens.v transfer_buffer_has_room) = the buffer is allocated larger than those bytes.
+   Without room: buffer.GetIoBuffer(n) has capacity = the smallest pool size (powers of two from 64) >= n, so for n a pool
+   size the buffer is FULL; IoBuffer.ReadOnce on a full buffer returns (0, nil) and connection.doRead takes that for EOF:
+   the new process closes the connection it has just received. *)
+Fixpoint is_pool_size_from (p : N) (n : N) (fuel : nat) : bool :=
+  match fuel with
+  | O => false
+  | S f => if N.eqb n p then true else if N.ltb n p then false else is_pool_size_from (2 * p)%N n f
+  end.
+Definition is_pool_size (n : N) : bool := is_pool_size_from 64 n 40.
+Definition handed_over_conn_survives (has_room : bool) (buffered : N) : bool :=
+  orb has_room (negb (is_pool_size buffered)).
+
+(* ------------------------------------------------------------------ 5. bolt request framing (length level)
+   protocol/xprotocol/bolt: a request frame is 22 header bytes + class + header + content, the three lengths at
+   offsets 14 (2 bytes), 16 (2 bytes), 18 (4 bytes).  Only the framing is needed for the hand-over. *)
+Definition bolt_req_len (b : bytes) : N := (22 + be_dec (sub b 14 16) + be_dec (sub b 16 18) + be_dec (sub b 18 22))%N.
+Definition bolt_req_parse (b : bytes) : presult bytes :=
+  if (blen b <? 22)%N then PNeedMore
+  else let n := bolt_req_len b in
+       if (blen b <? n)%N then PNeedMore else POk (takeN n b) (N.to_nat n).
+
+Definition count_frames {F} (evs : list (event F)) : nat :=
+  length (filter (fun e => match e with EFrame _ => true | _ => false end) evs).
+
+(* the frames one request yields when the connection is handed over after its first k bytes *)
+Definition frames_with_handover (frame : bytes) (k : nat) : option nat :=
+  let old := feed bolt_req_parse (@init bytes) (firstn k frame) in
+  match handover old [] with
+  | Some (nw, _) => Some (count_frames (out old ++ out (feed bolt_req_parse nw (skipn k frame))))
+  | None => None
+  end.
+
 (* ------------------------------------------------------------------ correspondence cases *)
 Fixpoint mismatches_from {A} (ok : A -> bool) (i : nat) (l : list A) : list nat :=
   match l with
@@ -278,6 +312,16 @@ Definition drain_case_ok (k : drain_case) : bool :=
     end
   end.
 Definition drain_mismatches (l : list drain_case) : list nat := mismatches_from drain_case_ok 0 l.
+
+(* hand-over at byte offset k of a request frame: replies the client received *)
+Definition xfer_case := (bytes * nat * nat)%type.
+Definition xfer_case_ok (has_room : bool) (k : xfer_case) : bool :=
+  match k with (frame, off, replies) =>
+    if handed_over_conn_survives has_room (N.of_nat off) then
+      match frames_with_handover frame off with Some n => Nat.eqb n replies | None => false end
+    else Nat.eqb replies 0
+  end.
+Definition xfer_mismatches (has_room : bool) (l : list xfer_case) : list nat := mismatches_from (xfer_case_ok has_room) 0 l.
 
 (* what an existing connection was told by the time Shutdown returned: protocol, announced? *)
 Definition ann_case := (proto * bool)%type.
